@@ -73,6 +73,51 @@ def run(rep: Report, tier: str) -> None:
 	rule_a(rep)
 	rule_b(rep)
 	rule_c(rep)
+	rule_d(rep)
+
+
+def rule_d(rep: Report) -> None:
+	"""keywords (string terminals) are excluded from regexp terminals: the keyword set must contain the terminals of nested groups too"""
+	r = rep.rule('C11/keywords-cover-nested-terminals', 'Rules._collect_keyword recurses into nested pattern groups, so every string terminal of the grammar — including those that occur only inside ( )?, ( )*, [ ] — is a keyword and cannot be matched by a regexp terminal', floor=2)
+	idx = SourceIndex()
+	m = idx.mod('rogw/tranp/implements/syntax/tranp/rule.py')
+	rep.consulted(m.relpath)
+	f = m.func('Rules._collect_keyword')
+	# the Patterns branch must iterate the group and call the collector on each entry (directly or through a recursive helper)
+	branch = next((n for n in ast.walk(f.node) if isinstance(n, ast.If) and 'isinstance(root, Patterns)' in unparse(n.test)), None)
+	recursive = False
+	if branch is not None:
+		for n in ast.walk(ast.Module(body=branch.body, type_ignores=[])):
+			if isinstance(n, ast.Call) and isinstance(n.func, ast.Attribute) and n.func.attr == '_collect_keyword':
+				recursive = True
+	# which terminals would be lost: string terminals that occur only nested, and that some regexp terminal of the grammar matches
+	text = _read(PY_GRAM)
+	tree = metagram.read_grammar(text, PY_GRAM)
+	top, nested, regexps = set(), set(), []
+	def walk(e, depth):
+		if e[0] == 'string':
+			(nested if depth > 0 else top).add(e[1][1:-1])
+		elif e[0] == 'regexp':
+			regexps.append(e[1][1:-1])
+		elif isinstance(e[1], list):
+			for c in e[1]:
+				walk(c, depth + (1 if e[0] in ('expr_rep', 'expr_opt') else 0))
+	for name, rl in metagram.rules_of(tree).items():
+		walk(rl[1][2], 0)
+	at_risk = sorted(t for t in nested - top if any(_fullmatch(rx, t) for rx in regexps))
+	r.check(recursive, 'collector-recursive', f.where, f'Rules._collect_keyword no longer descends into nested groups: terminals that occur only inside ( )?/( )*/[ ] are not keywords any more; of those, {at_risk} match a regexp terminal (e.g. `name`), so `lambda: x` is tokenised as a name and rejected / mis-parsed', unparse(f.node)[:200])
+	kw = m.func('Rules.keywords')
+	r.check('self._collect_keyword(pattern) for pattern in self.values()' in unparse(kw.node), 'all-rules-collected', kw.where, 'Rules.keywords no longer collects over every rule of the rule set')
+	cmp_ = idx.mod(SYNTAX_PY).func('SyntaxParser._compare_token')
+	r.check('token.string in self.rules.keywords' in unparse(cmp_.node), 'keywords-excluded-from-regexp', cmp_.where, 'SyntaxParser._compare_token no longer refuses keywords for regexp terminals')
+	r.note(f'string terminals of py_gram.lark that occur only inside nested groups and match a regexp terminal: {at_risk}')
+
+
+def _fullmatch(rx: str, t: str) -> bool:
+	try:
+		return re.fullmatch(rx, t) is not None
+	except re.error:
+		return False
 
 
 def rule_a(rep: Report) -> None:
